@@ -195,9 +195,24 @@ fn setup(seed: u64) -> Option<Setup> {
     }
     let filters = server::block_filters(chain, minf + 1, 6)?;
     let peer = w.peers[pi].id;
-    // the fork switch: the peer moves to a heavier branch that forks two blocks below the proved tip; it announces the new
-    // tip, the client asks for the proof (start = its tip on the abandoned branch), the answer is kept as an operation
-    let fork_proof = {
+    let fork_proof = capture_fork_proof(&mut w, pi, seed)?;
+    let c = w.c();
+    let h = Handles { storage: c.storage.clone(), peers: c.peers.clone(), peer, log: c.log.clone(), consensus: c.consensus.clone(), ccfg: ClientCfg { last_n: 5, cp_interval: 2000, max_outbound: 1, mmr_epoch: 0, blocks_in_transit: 16 } };
+    let ops = vec![
+        Op::SetScripts("all", vec![(lock_script(2), ST::Lock, 3)]),
+        Op::SetScripts("partial", vec![(lock_script(2), ST::Lock, 0)]),
+        Op::SetScripts("delete", vec![(lock_script(1), ST::Lock, 0)]),
+        Op::Filters(server::filter_msg(filters)),
+        Op::Block(held),
+        Op::ForkProof(fork_proof),
+    ];
+    Some(Setup { w, h, ops })
+}
+
+
+/// the fork switch: the peer moves to a heavier branch that forks two blocks below the proved tip; it announces the new
+/// tip, the client asks for the proof (start = its tip on the abandoned branch), the answer is kept as an operation
+fn capture_fork_proof(w: &mut World, pi: usize, seed: u64) -> Option<P2pBytes> {
         let tipn: u64 = w.c().storage.get_tip_header().raw().number().unpack();
         if tipn < 6 || w.chains[0].tip() != tipn {
             if std::env::var("VERIF_DEBUG").is_ok() {
@@ -233,23 +248,249 @@ fn setup(seed: u64) -> Option<Setup> {
         if cap.0.is_none() && std::env::var("VERIF_DEBUG").is_ok() {
             eprintln!("DEBUG setup: no proof request captured; trace {:?}", w.trace_vec().into_iter().rev().take(6).collect::<Vec<_>>());
         }
-        cap.0?
-    };
+        cap.0
+    }
+
+/// second prepared state: the client is fully synced (filter progress = proved tip, index complete) and the network then
+/// switches to a branch that forks two blocks below the tip: the fork rollback has index entries to delete and the filter
+/// progress to rewind. Operations: the three set_scripts commands and the fork proof.
+fn setup_synced(seed: u64) -> Option<Setup> {
+    let mut rng = Rng::new(seed ^ 0x5e7);
+    let (now, base_ts) = time_base();
+    let mut params = gen_params(&mut rng, seed, base_ts);
+    params.tx_density = 100;
+    params.n_locks = 3;
+    params.n_types = 0;
+    let len = rng.range(20, 40);
+    let ccfg = ClientCfg { last_n: 5, cp_interval: 2000, max_outbound: 1, mmr_epoch: 0, blocks_in_transit: 16 };
+    let main = Chain::generate(params, len);
+    let mut w = World::new(main, ccfg.clone(), seed, now);
+    let regs: Registered = vec![(lock_script(0), ST::Lock, 0), (lock_script(1), ST::Lock, 0)];
+    set_scripts(&w, &regs, None);
+    let pi = w.add_peer(0, true);
+    w.connect_all();
+    w.run_until(&mut NoHook, 80, |w| w.converged_on(0))?;
+    if w.dead {
+        return None;
+    }
+    let peer = w.peers[pi].id;
+    let fork_proof = capture_fork_proof(&mut w, pi, seed)?;
     let c = w.c();
-    let h = Handles { storage: c.storage.clone(), peers: c.peers.clone(), peer, log: c.log.clone(), consensus: c.consensus.clone(), ccfg: ClientCfg { last_n: 5, cp_interval: 2000, max_outbound: 1, mmr_epoch: 0, blocks_in_transit: 16 } };
+    let h = Handles { storage: c.storage.clone(), peers: c.peers.clone(), peer, log: c.log.clone(), consensus: c.consensus.clone(), ccfg };
     let ops = vec![
         Op::SetScripts("all", vec![(lock_script(2), ST::Lock, 3)]),
         Op::SetScripts("partial", vec![(lock_script(2), ST::Lock, 0)]),
         Op::SetScripts("delete", vec![(lock_script(1), ST::Lock, 0)]),
-        Op::Filters(server::filter_msg(filters)),
-        Op::Block(held),
         Op::ForkProof(fork_proof),
     ];
     Some(Setup { w, h, ops })
 }
 
-fn run_serial(seed: u64, a: usize, b: usize) -> Option<(Value, u64, Value)> {
-    let s = match setup(seed) {
+fn make(seed: u64, variant: u8) -> Option<Setup> {
+    if variant == 0 {
+        setup(seed)
+    } else {
+        setup_synced(seed)
+    }
+}
+
+fn n_ops(variant: u8) -> usize {
+    if variant == 0 {
+        6
+    } else {
+        4
+    }
+}
+
+/// run the operations one after another in the given order; (final state, S0)
+fn run_serial_seq(seed: u64, variant: u8, order: &[usize]) -> Option<(Value, Value)> {
+    let s = make(seed, variant)?;
+    let s0 = digest(&s.h);
+    for i in order {
+        if guarded(|| exec(&s.h, &s.ops[*i])).is_err() {
+            return None;
+        }
+    }
+    let d = digest(&s.h);
+    let mut s = s;
+    s.w.close();
+    Some((d, s0))
+}
+
+fn permutations(v: &[usize]) -> Vec<Vec<usize>> {
+    if v.len() <= 1 {
+        return vec![v.to_vec()];
+    }
+    let mut out = vec![];
+    for i in 0..v.len() {
+        let mut rest = v.to_vec();
+        let x = rest.remove(i);
+        for mut p in permutations(&rest) {
+            p.insert(0, x);
+            out.push(p);
+        }
+    }
+    out
+}
+
+enum ConcN {
+    Done { state: Value, parked: usize, finished_before_release: usize },
+    Deadlock(String),
+    Inconclusive(String),
+}
+
+/// randomized multi-thread run: every operation on its own thread, each parked before its k-th storage write (0 = never),
+/// threads started in `start_order` (a short grace period after each start lets it reach its pause point, finish, or block on
+/// a lock), released in `release_order`; a thread that reaches its pause point later is released at once
+fn run_random(seed: u64, variant: u8, picks: &[(usize, u64)], start_order: &[usize], release_order: &[usize]) -> ConcN {
+    let s = match make(seed, variant) {
+        Some(s) => s,
+        None => return ConcN::Inconclusive("setup".into()),
+    };
+    let Setup { mut w, h, ops } = s;
+    let h = Arc::new(h);
+    struct T {
+        parked_rx: std::sync::mpsc::Receiver<()>,
+        release_tx: std::sync::mpsc::Sender<bool>,
+        done_rx: std::sync::mpsc::Receiver<bool>,
+        handle: Option<std::thread::JoinHandle<()>>,
+        parked: bool,
+        released: bool,
+        done: Option<bool>,
+    }
+    let mut ts: Vec<Option<T>> = picks.iter().map(|_| None).collect();
+    let mut finished_before_release = 0;
+    let poll = |t: &mut T| {
+        if !t.parked && t.parked_rx.try_recv().is_ok() {
+            t.parked = true;
+        }
+        if t.done.is_none() {
+            if let Ok(ok) = t.done_rx.try_recv() {
+                t.done = Some(ok);
+            }
+        }
+    };
+    for &i in start_order {
+        let (op_idx, k) = picks[i];
+        let (parked_tx, parked_rx) = channel::<()>();
+        let (release_tx, release_rx) = channel::<bool>();
+        let (done_tx, done_rx) = channel::<bool>();
+        let (hh, op) = (h.clone(), ops[op_idx].clone());
+        let handle = std::thread::spawn(move || {
+            super::super::util::install_panic_hook();
+            let mut count = 0u64;
+            let mut parked_tx = Some(parked_tx);
+            crate::verif_hook::install(Box::new(move |site| {
+                if site.starts_with("read:") {
+                    return;
+                }
+                count += 1;
+                if k != 0 && count == k {
+                    if let Some(tx) = parked_tx.take() {
+                        let _ = tx.send(());
+                        if let Ok(false) | Err(_) = release_rx.recv() {
+                            std::panic::panic_any(AbortExperiment);
+                        }
+                    }
+                }
+            }));
+            let r = guarded(|| exec(&hh, &op));
+            crate::verif_hook::clear();
+            let _ = done_tx.send(r.is_ok());
+        });
+        let mut t = T { parked_rx, release_tx, done_rx, handle: Some(handle), parked: false, released: false, done: None };
+        // grace period: parked, finished, or (blocked on a lock / still running) after 40 ms
+        let t0 = std::time::Instant::now();
+        while t0.elapsed() < Duration::from_millis(40) {
+            poll(&mut t);
+            if t.parked || t.done.is_some() {
+                break;
+            }
+            std::thread::sleep(Duration::from_millis(1));
+        }
+        ts[i] = Some(t);
+    }
+    let parked_n = ts.iter().flatten().filter(|t| t.parked).count();
+    for t in ts.iter_mut().flatten() {
+        poll(t);
+        if t.done.is_some() {
+            finished_before_release += 1;
+        }
+    }
+    for &i in release_order {
+        let t = ts[i].as_mut().unwrap();
+        poll(t);
+        if t.parked && !t.released {
+            let _ = t.release_tx.send(true);
+            t.released = true;
+            std::thread::sleep(Duration::from_millis((seed.wrapping_add(i as u64) % 4) as u64));
+        }
+    }
+    // join: late arrivals at a pause point are released at once; deadlock = every thread asleep, nothing parked, no CPU progress
+    let t0 = std::time::Instant::now();
+    let mut last_states = String::new();
+    let mut same_count = 0;
+    loop {
+        let mut all_done = true;
+        for t in ts.iter_mut().flatten() {
+            poll(t);
+            if t.parked && !t.released {
+                let _ = t.release_tx.send(true);
+                t.released = true;
+            }
+            if t.done.is_none() {
+                all_done = false;
+            }
+        }
+        if all_done {
+            break;
+        }
+        std::thread::sleep(Duration::from_millis(5));
+        if t0.elapsed() > Duration::from_secs(3) {
+            let st = thread_states();
+            if st == last_states {
+                same_count += 1;
+            } else {
+                same_count = 0;
+                last_states = st.clone();
+            }
+            let unreleased = ts.iter().flatten().any(|t| t.parked && !t.released);
+            if same_count >= 10 && !st.contains(":R:") && !unreleased {
+                for t in ts.iter_mut().flatten() {
+                    std::mem::forget(t.handle.take());
+                }
+                std::mem::forget(w);
+                return ConcN::Deadlock(st);
+            }
+            std::thread::sleep(Duration::from_millis(200));
+        }
+        if t0.elapsed() > Duration::from_secs(60) {
+            for t in ts.iter_mut().flatten() {
+                std::mem::forget(t.handle.take());
+            }
+            std::mem::forget(w);
+            return ConcN::Inconclusive("watchdog".into());
+        }
+    }
+    let mut ok = true;
+    for t in ts.iter_mut().flatten() {
+        if let Some(hd) = t.handle.take() {
+            let _ = hd.join();
+        }
+        ok &= t.done == Some(true);
+    }
+    if !ok {
+        w.close();
+        return ConcN::Inconclusive("an operation panicked".into());
+    }
+    let d = digest(&h);
+    drop(h);
+    w.close();
+    ConcN::Done { state: d, parked: parked_n, finished_before_release }
+}
+
+fn run_serial(seed: u64, variant: u8, a: usize, b: usize) -> Option<(Value, u64, Value)> {
+    let s = match make(seed, variant) {
         Some(s) => s,
         None => {
             if std::env::var("VERIF_DEBUG").is_ok() {
@@ -313,8 +554,8 @@ fn thread_states() -> String {
     v.join(",")
 }
 
-fn run_concurrent(seed: u64, a: usize, b: usize, k: u64) -> Conc {
-    let s = match setup(seed) {
+fn run_concurrent(seed: u64, variant: u8, a: usize, b: usize, k: u64) -> Conc {
+    let s = match make(seed, variant) {
         Some(s) => s,
         None => return Conc::Inconclusive("setup".into()),
     };
@@ -431,7 +672,9 @@ fn run_concurrent(seed: u64, a: usize, b: usize, k: u64) -> Conc {
 pub fn run(cfg: &RunCfg, out: &Out) {
     // reader clause first (cheap): paged queries parked mid-scan while a writer sequence runs
     super::c17r::run(cfg, out, cfg.budget);
-    let n_ops = 6;
+    for variant in [0u8, 1] {
+    let n_ops = n_ops(variant);
+    let vname = if variant == 0 { "" } else { "synced:" };
     let mut pairs: Vec<(usize, usize)> = vec![];
     for a in 0..n_ops {
         for b in 0..n_ops {
@@ -445,14 +688,14 @@ pub fn run(cfg: &RunCfg, out: &Out) {
         let seed = cfg.scenario_seed(k);
         // every shard takes a slice of the pairs of every S0
         for (pi, (a, b)) in pairs.iter().enumerate() {
-            if (pi as u64) % cfg.shards != cfg.shard {
+            if (pi as u64 + variant as u64 * 5) % cfg.shards != cfg.shard {
                 continue;
             }
             if out.time_up() {
                 break;
             }
-            let ab = run_serial(seed, *a, *b);
-            let ba = run_serial(seed, *b, *a);
+            let ab = run_serial(seed, variant, *a, *b);
+            let ba = run_serial(seed, variant, *b, *a);
             let (ab, ba) = match (ab, ba) {
                 (Some(x), Some(y)) => (x, y),
                 _ => {
@@ -465,10 +708,10 @@ pub fn run(cfg: &RunCfg, out: &Out) {
                 continue;
             }
             let names = {
-                let s = setup(seed);
+                let s = make(seed, variant);
                 match s {
                     Some(mut s) => {
-                        let n = (s.ops[*a].name(), s.ops[*b].name());
+                        let n = (format!("{}{}", vname, s.ops[*a].name()), format!("{}{}", vname, s.ops[*b].name()));
                         s.w.close();
                         n
                     }
@@ -477,7 +720,7 @@ pub fn run(cfg: &RunCfg, out: &Out) {
             };
             let w_a = ab.1;
             for kk in 1..=w_a {
-                match run_concurrent(seed, *a, *b, kk) {
+                match run_concurrent(seed, variant, *a, *b, kk) {
                     Conc::Done { state, b_finished_while_a_parked, lock_free_at_park } => {
                         out.eval(1);
                         let which = if state == ab.0 { "A;B" } else if state == ba.0 { "B;A" } else { "NEITHER" };
@@ -496,6 +739,83 @@ pub fn run(cfg: &RunCfg, out: &Out) {
                     }
                     Conc::Inconclusive(why) => out.count(&format!("inconclusive_{}", why.replace(' ', "_")), 1),
                 }
+            }
+        }
+    }
+    }
+    // randomized multi-thread runs: three operations on three threads, random pause points, start and release orders
+    let rounds = if cfg.tier == "thorough" { 40 } else { 3 };
+    for k in 0..cfg.budget {
+        for r in 0..rounds {
+            if out.time_up() {
+                break;
+            }
+            let seed = cfg.scenario_seed(k);
+            let mut rng = Rng::new(super::super::rng::mix(seed, 0xabc0 + r * cfg.shards + cfg.shard));
+            let variant = if rng.chance(1, 3) { 1u8 } else { 0 };
+            let n = n_ops(variant);
+            let mut idx: Vec<usize> = (0..n).collect();
+            let mut chosen = vec![];
+            for _ in 0..3 {
+                chosen.push(idx.remove(rng.pick_idx(idx.len())));
+            }
+            let picks: Vec<(usize, u64)> = chosen.iter().map(|o| (*o, if rng.chance(1, 4) { 0 } else { rng.range(1, 4) })).collect();
+            let mut start_order = vec![0usize, 1, 2];
+            let mut release_order = vec![0usize, 1, 2];
+            for v in [&mut start_order, &mut release_order] {
+                for i in (1..v.len()).rev() {
+                    let j = rng.pick_idx(i + 1);
+                    v.swap(i, j);
+                }
+            }
+            let mut serial: Vec<(Vec<usize>, Value)> = vec![];
+            let mut s0: Option<Value> = None;
+            let mut bad = false;
+            for p in permutations(&chosen) {
+                match run_serial_seq(seed, variant, &p) {
+                    Some((d, z)) => {
+                        if s0.as_ref().map(|x| x != &z).unwrap_or(false) {
+                            bad = true;
+                        }
+                        s0 = Some(z);
+                        serial.push((p, d));
+                    }
+                    None => bad = true,
+                }
+            }
+            if bad {
+                out.count("random_setups_discarded", 1);
+                continue;
+            }
+            let names: Vec<String> = match make(seed, variant) {
+                Some(mut s) => {
+                    let n = chosen.iter().map(|o| s.ops[*o].name()).collect();
+                    s.w.close();
+                    n
+                }
+                None => continue,
+            };
+            match run_random(seed, variant, &picks, &start_order, &release_order) {
+                ConcN::Done { state, parked, finished_before_release } => {
+                    out.eval(1);
+                    out.count("random_multi_thread_runs", 1);
+                    let matched = serial.iter().find(|(_, d)| d == &state).map(|(p, _)| p.iter().map(|o| chosen.iter().position(|c| c == o).unwrap().to_string()).collect::<Vec<_>>().join(""));
+                    let distinct: std::collections::BTreeSet<String> = serial.iter().map(|(_, d)| d.to_string()).collect();
+                    let mut sorted_names = names.clone();
+                    sorted_names.sort();
+                    out.cell(&format!("random3|v{}|{}|parked={}|early={}|serial-outcomes={}|{}", variant, sorted_names.join("+"), parked, finished_before_release, distinct.len(), if matched.is_some() { "serial" } else { "NEITHER" }));
+                    out.sample("random3", 2, || json!({"ops": names, "pause_before_write": picks.iter().map(|p| p.1).collect::<Vec<_>>(), "start_order": start_order, "release_order": release_order, "parked": parked, "matched_serial_order": matched, "distinct_serial_outcomes": distinct.len()}));
+                    if matched.is_none() {
+                        out.violation("C17.R1", &format!("C17|random3|outcome-equals-no-serial-order|{}", sorted_names.join("+")),
+                            json!({"seed": seed, "variant": variant, "ops": names, "pause_before_write": picks.iter().map(|p| p.1).collect::<Vec<_>>(), "start_order": start_order, "release_order": release_order,
+                                "concurrent": state, "serial": serial.iter().map(|(p, d)| json!({"order": p, "state": d})).collect::<Vec<_>>(), "S0": s0}), k);
+                    }
+                }
+                ConcN::Deadlock(st) => {
+                    out.eval(1);
+                    out.violation("C17.R3", &format!("C17|random3|deadlock|{}", names.join("+")), json!({"seed": seed, "threads": st}), k);
+                }
+                ConcN::Inconclusive(why) => out.count(&format!("random_inconclusive_{}", why.replace(' ', "_")), 1),
             }
         }
     }
